@@ -210,12 +210,20 @@ func runC08(c *Ctx) {
 					}
 				}
 			case *ssa.MakeSlice:
-				okLen := func(v ssa.Value) bool {
-					if _, isConst := v.(*ssa.Const); isConst {
+				var okLen func(v ssa.Value) bool
+				okLen = func(v ssa.Value) bool {
+					if k, isConst := v.(*ssa.Const); isConst {
+						if i, isInt := ir.ConstInt(k); isInt && i < 0 {
+							return false
+						}
 						return true
 					}
 					if call, ok := v.(*ssa.Call); ok && (ir.BuiltinName(call) == "len" || ir.BuiltinName(call) == "cap") {
 						return true
+					}
+					// len(x)+1, len(x)+len(y): sums of such terms are non-negative too
+					if b, ok := v.(*ssa.BinOp); ok && b.Op == token.ADD {
+						return okLen(b.X) && okLen(b.Y)
 					}
 					return false
 				}
